@@ -13,7 +13,7 @@ XLABELS = {"atom": ["_atom_site_description", "_atom_site_calc_flag", "_atom_sit
            "angle": ["_geom_angle", "_geom_angle_publ_flag"],
            "dihedral": ["_geom_torsion", "_geom_torsion_publ_flag"],
            "improper": ["_improper_note"]}
-XVALUES = ["1.0", "S", "A", "0.5000", "yes", "?", "1.5400", "x"]
+XVALUES = ["1.0", "S", "A", "0.5000", "yes", "?", "1.5400", "x", "bridging-site", "0.7500000001", "d"]
 
 
 @st.composite
